@@ -39,7 +39,7 @@ Event ==
   /\ LET e == Trace[l] IN
      \/ /\ e.ev = "reset" /\ l = 1 /\ Stutter /\ UNCHANGED lastres
      \/ /\ e.ev = "reset" /\ l > 1                                                    \* next round on a fresh queue
-        /\ ch' = <<>> /\ pool' = <<>> /\ wake' = 0 /\ lock' = "free" /\ lpc' = "idle" /\ lval' = <<>>
+        /\ ch' = <<>> /\ pool' = <<>> /\ wake' = 0 /\ lock' = "free" /\ lpc' = "idle" /\ lval' = <<>> /\ lbudget' = 0
         /\ ppc' = [p \in {"p1", "p2", "p3"} |-> "start"] /\ pidx' = [p \in {"p1", "p2", "p3"} |-> 1] /\ pres' = [p \in {"p1", "p2", "p3"} |-> <<>>]
         /\ cpc' = [c \in {"c1", "c2", "c3"} |-> "start"] /\ cidx' = [c \in {"c1", "c2", "c3"} |-> 1] /\ cres' = [c \in {"c1", "c2", "c3"} |-> <<>>]
         /\ ckind' = [c \in {"c1", "c2", "c3"} |-> "none"] /\ lastres' = [c \in {"c1", "c2", "c3"} |-> NoRes]
